@@ -521,7 +521,7 @@ def run_universe(spec, workdir, k_fresh, k_build, sabotage=None):
         return f"{kind}:{cls['c']}"
 
     def cli(args):
-        code, out, err = veryl(args, cwd=root, home=home, timeout=300)
+        code, out, err = veryl(args, cwd=root, home=home, timeout=900)
         res.count("cli_runs")
         if code is None:
             res.inconclusive.append(f"veryl {' '.join(args)} timed out")
